@@ -158,27 +158,34 @@ func TestVerifC04(t *testing.T) {
 	}
 	seen := &vC04Seen{}
 	mgr := vC04Manager()
-	var addr string
-	var a *API
-	for try := 0; try < 4; try++ { // the scratch port may be taken between probing and listening
-		addr = vC04FreeAddr()
-		a = &API{
-			Version: "v0.0.0-c04", Started: time.Unix(1700000000, 0), Address: addr,
-			TrustedProxies: vC04TrustedProxies(),
-			ReadTimeout:    conf.Duration(20 * time.Second), WriteTimeout: conf.Duration(20 * time.Second),
-			AuthManager: mgr,
-			PathManager: &vC04PM{seen}, RTSPServer: &vC04RTSP{seen}, RTSPSServer: &vC04RTSP{seen},
-			RTMPServer: &vC04RTMP{seen}, RTMPSServer: &vC04RTMP{seen}, HLSServer: &vC04HLS{seen},
-			WebRTCServer: &vC04WebRTC{seen}, SRTServer: &vC04SRT{seen}, MoQServer: &vC04MoQ{seen},
-			Parent: &vC04Parent{seen: seen, cnf: cnf},
+	// two instances: [0] with the trusted proxy 127.0.0.1/32, [1] without trusted proxies (the default)
+	var bases [2]string
+	var apis [2]*API
+	for inst := 0; inst < 2; inst++ {
+		var a *API
+		for try := 0; try < 4; try++ { // the scratch port may be taken between probing and listening
+			addr := vC04FreeAddr()
+			a = &API{
+				Version: "v0.0.0-c04", Started: time.Unix(1700000000, 0), Address: addr,
+				TrustedProxies: vC04TrustedProxies(inst),
+				ReadTimeout:    conf.Duration(20 * time.Second), WriteTimeout: conf.Duration(20 * time.Second),
+				AuthManager: mgr,
+				PathManager: &vC04PM{seen}, RTSPServer: &vC04RTSP{seen}, RTSPSServer: &vC04RTSP{seen},
+				RTMPServer: &vC04RTMP{seen}, RTMPSServer: &vC04RTMP{seen}, HLSServer: &vC04HLS{seen},
+				WebRTCServer: &vC04WebRTC{seen}, SRTServer: &vC04SRT{seen}, MoQServer: &vC04MoQ{seen},
+				Parent: &vC04Parent{seen: seen, cnf: cnf},
+			}
+			if err = a.Initialize(); err == nil {
+				bases[inst] = "http://" + addr
+				break
+			}
 		}
-		if err = a.Initialize(); err == nil {
-			break
+		if err != nil {
+			t.Fatal(err)
 		}
+		defer a.Close()
+		apis[inst] = a
 	}
-	if err != nil {
-		t.Fatal(err)
-	}
-	defer a.Close()
-	vC04Run(t, vC04Spec{Server: "api", Base: "http://" + addr, Routes: vC04Routes(a.httpServer.Handler), Seen: seen, Share: 55}, mgr)
+	vC04SameRoutes(t, apis[0].httpServer.Handler, apis[1].httpServer.Handler)
+	vC04Run(t, vC04Spec{Server: "api", Bases: bases, Routes: vC04Routes(apis[0].httpServer.Handler), Seen: seen, Share: 55}, mgr)
 }
